@@ -5,6 +5,8 @@
 # SEED_IN_PLACE=1 applies it to /repo itself instead (git apply ... ; check ; git checkout -- .).
 patch="$1"; prop="$2"; tier="${3:-quick}"
 cd /verif
+# seeds are judged on the guaranteed part of the quick tier (requested bounds), not on what the wall-clock dependent bonus levels happen to reach
+export VERIF_BONUS_S="${VERIF_BONUS_S:-0}"
 log=/tmp/seedrun.$$.log
 # the check rewrites evidence/<prop>.json on every run: what a SEEDED tree produced
 # must never stay there (the committed evidence comes from /repo itself)
